@@ -686,7 +686,6 @@ class RaceRun:
                 with rs.quiet():
                     sched.run(timeout=30.0)
                 self.left = len(svc.subscriptions)
-                self.stale = sum(1 for si in svc.last_checked_subscriptions_time if si not in svc.subscriptions)
         self.steps = sched.steps
         self.choices = [c[0] for c in sched.steps]
         self.events = list(sched.events)
@@ -733,9 +732,7 @@ class RaceRun:
                 else:
                     bad.append((f"callback of A invoked although the attendance took up its notification AFTER "
                                 f"{self.sc['remove']} had returned ACCEPTED (notify_time {nt} ms)", None))
-        if gone is not None and self.stale and not any(e == ("cb", "A") and i > gone for i, e in enumerate(ev)):
-            pass        # a stale last-checked record without a callback is not judged (no clause of the property)
-        return bad
+        return bad        # a stale last-checked record without a callback is not judged (no clause of the property)
 
 
 _GAP = {}
